@@ -174,14 +174,16 @@ def lost_discovery_histories(rec, users, thorough, base_idx=900):
         out = []
         for (auth, priv, kt, calls, plan, i) in items:
             cfg = make_cfg(auth, priv, kt, ENGINES["A17"], i)
-            a, b = await run_async(rec, cfg, False, calls, plan)
-            out.append((a, b, dict(kind="async", auth=auth, priv=priv, kt=kt, given=False, engine="A17", calls=calls, plan=plan, idx=i, api_history=True)))
+            giv = "empty" if i % 2 else False         # engine_id=b"" or engine_id=None: both mean "not known yet"
+            a, b = await run_async(rec, cfg, giv, calls, plan)
+            out.append((a, b, dict(kind="async", auth=auth, priv=priv, kt=kt, given=giv, engine="A17", calls=calls, plan=plan, idx=i, api_history=True)))
         return out
     runs += asyncio.run(hist_async(hist[0::2]))
     for (auth, priv, kt, calls, plan, i) in hist[1::2]:
         cfg = make_cfg(auth, priv, kt, ENGINES["A17"], i)
-        a, b = run_sync(rec, cfg, False, calls, plan)
-        runs.append((a, b, dict(kind="sync", auth=auth, priv=priv, kt=kt, given=False, engine="A17", calls=calls, plan=plan, idx=i, api_history=True)))
+        giv = "empty" if i % 2 else False
+        a, b = run_sync(rec, cfg, giv, calls, plan)
+        runs.append((a, b, dict(kind="sync", auth=auth, priv=priv, kt=kt, given=giv, engine="A17", calls=calls, plan=plan, idx=i, api_history=True)))
     return runs
 
 
@@ -206,15 +208,17 @@ def run(tier):
     scen = []
     idx = 0
     for si, (auth, priv, kt) in enumerate(secs):
-        for given in (True, False):
+        for given in (True, False, "empty"):          # "empty": engine_id=b"" is passed - no engine id known, just like None
             for ename in ("A5", "A17", "A32"):
                 for ci, calls in enumerate(CALLS):
-                    if calls[0] != "enter" and not given:
+                    if calls[0] != "enter" and given is not True:
                         continue                     # without an engine id the session must be entered first
+                    if given == "empty" and (ci + si) % 2:
+                        continue
                     nreq = sum(2 if c == "enter" else 1 for c in calls) + 1
                     for pi, plan in enumerate(plans(rng, nreq, ename)):
                         idx += 1
-                        if not thorough and (idx + SEED) % 17:
+                        if not thorough and (idx + SEED) % 23:
                             continue
                         scen.append((auth, priv, kt, given, ename, calls, plan, idx))
     async def all_async(items):
@@ -259,7 +263,7 @@ def run(tier):
         nth = sum(1 for e in rec.events[a:idxf + 1] if e["ev"] == ev["ev"])
         sig = dict(client=info["kind"], auth=info["auth"], priv=info["priv"], kt=info["kt"], given=info["given"], ev=ev["ev"], op=ev.get("op"), got=ev.get("exc") or "ok")
         chk.violation(sig, "%s auth=%s priv=%s kt=%s engine %s (%s) calls=%s: %s #%d (%s) %s" % (info["kind"], info["auth"], info["priv"], info["kt"], info["engine"],
-                      "given" if info["given"] else "discovered", info["calls"], ev["ev"], nth, ev.get("op"), ev.get("exc") or ""), dict(info=info, event_index=idxf - a),
+                      "given" if info["given"] is True else ("discovered, engine_id=b''" if info["given"] == "empty" else "discovered"), info["calls"], ev["ev"], nth, ev.get("op"), ev.get("exc") or ""), dict(info=info, event_index=idxf - a),
                       confirm=(confirm_by_replay(replay, dict(info=info)) if timing_event(ev) else None))
     chk.sample(dict(kind="scenario", info=runs[2][2]))
     return chk.finish()
